@@ -200,6 +200,10 @@ func c08Build(rng *rand.Rand, s3 *c08S3, t0 int64) c08History {
 				batches = append(batches, rb)
 				next += int64(n)
 				clock = max + int64(rng.Intn(300))
+				if rng.Intn(5) == 0 {
+					// a late / clock-skewed producer: the next batch starts EARLIER than this one ended
+					clock = first - int64(rng.Intn(600))
+				}
 			}
 			clock += int64(rng.Intn(500))
 			seg.Created = clock // a segment is created (flushed) after its records were produced
@@ -279,7 +283,7 @@ func c08ReadTarget(s3 *c08S3, p int32) ([]c08Rec, string) {
 
 func TestVerifC08Restore(t *testing.T) {
 	r := verifkit.Start(t, "C08", "restore")
-	defer r.Finish("history = 1-3 partitions x 1-4 segments x 1-3 batches x 1-5 records, explicit creation times (incl. skew), non-monotonic record timestamps, earliest offset sometimes > 0; T drawn around record timestamps and creation times; partition subsets. Each (history,T,subset) is restored once fault-free (record-level comparison with the expected prefix, target batches decoded incl. CRC) and then once per S3 operation k with that operation failing before its effect, once more per upload with the failure after the effect, and with all rollback deletes failing; evaluations = restore runs; distinct = (history,T,subset,k,mode); non-trivial = run that had >=1 target upload before the fault or a success run that truncated a batch",
+	defer r.Finish("history = 1-3 partitions x 1-4 segments x 1-3 batches x 1-5 records, explicit creation times (incl. skew), non-monotonic record timestamps within and ACROSS batches (a later batch may lie wholly before an earlier one), earliest offset sometimes > 0; T drawn around record timestamps and creation times; partition subsets. Each (history,T,subset) is restored once fault-free (record-level comparison with the expected prefix, target batches decoded incl. CRC) and then once per S3 operation k with that operation failing before its effect, once more per upload with the failure after the effect, and with all rollback deletes failing; evaluations = restore runs; distinct = (history,T,subset,k,mode); non-trivial = run that had >=1 target upload before the fault or a success run that truncated a batch",
 		"fake S3: atomic puts; a failed op either has no effect or (uploads only, mode=after) full effect")
 	n := r.N(60, 900)
 	t0 := int64(1_700_000_000_000)
